@@ -231,6 +231,36 @@ class LoopCtx:
             elif h.kind == 'slist':
                 self.length = h.meta['len']
                 self.item_fn = lambda k, s, h=h: h.meta['elem'](k)
+            elif h.kind == 'smapitems':
+                # enumeration (unspecified order, A-DICT-ORDER) of the keys present in the map when
+                # the loop starts: e[0..n) distinct, exactly the present keys
+                mh = st.obj(h.meta['map'])
+                m = mh.meta
+                ks = m['present'].domain()
+                n = z3.Int(fresh_name('map_len'))
+                e = z3.Array(fresh_name('map_enum'), z3.IntSort(), ks)
+                pos = z3.Function(fresh_name('map_pos'), ks, z3.IntSort())
+                kk, ii = z3.Const('k__', ks), z3.Int('i__')
+                pres0, vals0 = m['present'], m['vals']
+                st.assume(n >= 0)
+                st.assume(z3.ForAll([ii], z3.Implies(z3.And(ii >= 0, ii < n), z3.And(z3.Select(pres0, z3.Select(e, ii)), pos(z3.Select(e, ii)) == ii))))
+                st.assume(z3.ForAll([kk], z3.Implies(z3.Select(pres0, kk), z3.And(pos(kk) >= 0, pos(kk) < n, z3.Select(e, pos(kk)) == kk))))
+                self.length = n
+                self.ghost['enum'] = e
+                self.ghost['pos'] = pos
+                self.ghost['present0'] = pres0
+                self.ghost['vals0'] = vals0
+                what = h.meta['what']
+                val_int = m['val_t'] is Int
+
+                def item(i, s, e=e, vals0=vals0, what=what, val_int=val_int):
+                    i = i if is_sym(i) else z3.IntVal(i)
+                    k = z3.Select(e, i)
+                    if what == 'keys':
+                        return k
+                    v = z3.Select(vals0, k)
+                    return (k, v if val_int else Opaque(v))
+                self.item_fn = item
             elif h.kind == 'sset':
                 # iteration over a set snapshot: an enumeration of unspecified order (A-DICT-ORDER)
                 n = z3.Int(fresh_name('set_len'))
